@@ -111,7 +111,7 @@ impl Srv for JApp {
             (true, Some(c)) => c,
             _ => serde_json::from_value(jura::order_json(asset, is_buy, px, sz, kind, sp)).unwrap(),
         };
-        (self.insert_order(o, bt).is_some(), t[..5].join(" "))
+        (self.insert_order(o, bt).is_some(), format!("{}{}", t[..5].join(" "), jura::extras_tok(sp)))
     }
     fn del(&mut self, bt: u64, t: &[&str]) -> bool {
         self.delete_order(pu(t[0]), pu(t[1]), bt).is_some()
@@ -288,7 +288,11 @@ pub fn gen(jura_kind: bool, seed: u64, cases: usize, flavour: &str, path: &str) 
                             1 => "L:gtc".to_string(),
                             _ => format!("T:{}:{}:{}", fb(if g.rng.chance(1, 2) { px } else { (g.rng.below(20) + 1) as f64 * 0.5 }), g.rng.below(2), if g.rng.chance(1, 2) { "tp" } else { "sl" }),
                         };
-                        format!("INS {} {} {} {} {} {} {} {}", bt, g.rng.below(2), g.rng.below(2), fb(px), fb(qty as f64), kind, g.rng.below(3), g.rng.below(2))
+                        {
+                            // spelling, plus (one order in five) reduce_only and / or a client order id
+                            let sp = g.rng.below(3) + if g.rng.chance(1, 5) { 3 * (1 + g.rng.below(3)) } else { 0 };
+                            format!("INS {} {} {} {} {} {} {} {}", bt, g.rng.below(2), g.rng.below(2), fb(px), fb(qty as f64), kind, sp, g.rng.below(2))
+                        }
                     } else {
                         let t = g.rng.below(6);
                         let p = if t < 2 { "-".to_string() } else { fb(px) };
